@@ -28,6 +28,7 @@ WINDOWS = ['cosine-squared', 'hann', 'blackman', 'hamming', 'bartlett', 'cosine'
 # windows documented as non-negative on [0, 1] (hamming/boxcar do not start at 0; still within [0, 1])
 NONNEG_WINDOWS = {'cosine-squared', 'hann', 'bartlett', 'cosine', 'boxcar', 'hamming'}
 FIR_TOL = 1e-12
+EQ_TOL = 1e-9
 
 
 def isamp(x, fs):
@@ -436,9 +437,24 @@ def has_transform(node):
 
 def is_fir(node):
     """Does the tree contain an FIR-filtered noise (equality only to round-off)?"""
-    if node['t'] in ('firnoise', 'shaped'):
-        return True
+    if node['t'] in ('firnoise', 'shaped') or (node['t'] == 'blnoise' and node.get('eq')):
+        return True         # (equalised IIR noise passes through the calibration's FIR impulse response first)
     return 'in' in node and is_fir(node['in'])
+
+
+def has_eq_iir(node):
+    return (node['t'] == 'blnoise' and bool(node.get('eq'))) or ('in' in node and has_eq_iir(node['in']))
+
+
+def tree_tol(node):
+    """Tolerance (fraction of full scale) of the stream comparison: 0 = bit-exact; FIR-filtered noise to round-off
+    (1e-12, the property's figure).  Equalised IIR noise is an FIR stage (SciPy filters a = [1] by convolution, whose
+    summation order depends on the chunk) followed by a high-order IIR band-pass that amplifies that round-off:
+    differences of some 1e-11 of full scale occur on the unchanged library (notes: reported, not alarmed), so these
+    are compared to 1e-9 -- still nine orders below the effect of a lost or mixed-up filter state."""
+    if has_eq_iir(node):
+        return EQ_TOL
+    return FIR_TOL if is_fir(node) else 0.0
 
 
 def window_name(node):
